@@ -354,6 +354,25 @@ Definition size_ok (c : scfg) (e : entry) : bool :=
   | _ => true
   end.
 
+(** C05: the accept decisions as a client sees them. Where no extension decides (no answer, or
+    an explicit defer) a recipient answered 250 is one the domain policy accepts, one refused
+    with 550 is one it rejects, and a sender answered 250 has a domain that matches no
+    reject-origin pattern. *)
+Definition policy_decides (h : hook_ans) : bool := match h with NoAns | Defer => true | _ => false end.
+Definition accept_ok (c : scfg) (e : item * list rline) : bool :=
+  match e with
+  | (L (Rcpt (RParsed (Some r)) h), rp) =>
+      if policy_decides h then
+        (if (first_code rp =? 250)%Z then should_accept (pol c) (r_domain r) else true) &&
+        (if (first_code rp =? 550)%Z then negb (should_accept (pol c) (r_domain r)) else true)
+      else true
+  | (L (Mail (MParsed _ (Some o)) h), rp) =>
+      if policy_decides h then
+        (if (first_code rp =? 250)%Z then should_accept_origin (pol c) (o_domain o) else true)
+      else true
+  | _ => true
+  end.
+
 (** The store as C01 needs it: mailbox name -> messages in arrival order (append only). *)
 Definition mstore := list (str * list delivery).
 Fixpoint store_add (σ : mstore) (d : delivery) : mstore :=
